@@ -43,6 +43,7 @@ type Filter struct {
 	tubeOffset     int
 	selfAlign      bool
 	complement     bool
+	nextTube       int // lowest tube index that has not been retired
 }
 
 // Return a new Filter using ki as the target, and filter parameters in params.
@@ -87,6 +88,7 @@ func (f *Filter) Filter(query *linear.Seq, selfAlign, complement bool, morass *m
 
 	// Ticker tracks cycling of circular list of active tubes.
 	ticker := tubeWidth
+	f.nextTube = 0
 
 	var err error
 	err = f.ki.ForEachKmerOf(query, 0, query.Len(), func(ki *kmerindex.Index, position, kmer int) {
@@ -122,6 +124,9 @@ func (f *Filter) Filter(query *linear.Seq, selfAlign, complement bool, morass *m
 	if tubeFrom < 0 {
 		tubeFrom = 0
 	}
+	// Every tube below nextTube has been retired and its slot may already
+	// hold a higher tube; every tube from nextTube on is still to be flushed.
+	tubeFrom = f.nextTube
 
 	tubeTo := f.tubeIndex(diagTo)
 
@@ -230,18 +235,28 @@ func (f *Filter) hitTube(tubeIndex, q int) error {
 // Called when end of a tube is reached
 // A point in the tube -- the point with maximal q -- is (Tlen-1,q-1).
 func (f *Filter) tubeEnd(q int) error {
-	diagIndex := f.diagIndex(f.target.Len()-1, q-1)
-	tubeIndex := f.tubeIndex(diagIndex)
-	tube := &f.tubes[tubeIndex%cap(f.tubes)]
-
-	if tube.Count >= f.minKmersPerHit {
-		err := f.addHit(tubeIndex, tube.QLo, tube.QHi)
-		if err != nil {
-			return err
-		}
+	// The tubes to retire are those that lie entirely at or below the
+	// diagonal of (Tlen-1,q-1): k-mers at later query positions fall on
+	// higher diagonals, so they are complete. The tube containing that
+	// diagonal is still being filled when MaxError > 0. Tubes are retired in
+	// order so that none is skipped and none is retired twice, since the
+	// slot of a retired tube is reused by a higher one.
+	diagIndex := f.diagIndex(f.target.Len()-1, q-1) - (f.tubeOffset + f.maxError) + 1
+	if diagIndex < 0 {
+		return nil
 	}
+	for last := f.tubeIndex(diagIndex); f.nextTube <= last; f.nextTube++ {
+		tube := &f.tubes[f.nextTube%cap(f.tubes)]
 
-	tube.Count = 0
+		if tube.Count >= f.minKmersPerHit {
+			err := f.addHit(f.nextTube, tube.QLo, tube.QHi)
+			if err != nil {
+				return err
+			}
+		}
+
+		tube.Count = 0
+	}
 
 	return nil
 }
